@@ -65,6 +65,11 @@ def observe(res_outs, tmp_list):
     return content, len(tmp_list), g
 
 
+def leftovers(r):
+    """what the bucket's directory holds besides nothing: entries of the tree under the bucket (directories included)"""
+    return sorted(t.split("=")[0] for t in r.get("tree", []) if t.startswith("root/%s/" % BK))
+
+
 def run_faults(ctx):
     rng = ctx.rng
     cases, models, meta = [], [], []
@@ -134,6 +139,10 @@ def run_faults(ctx):
         prev = OLD if mt["present"] else None
         if status == "failed":
             okprop = content == prev and ntmp == 0 and (not mt["present"] or "meta=v=old" in g)
+            if okprop and not mt["present"] and leftovers(r):
+                # nothing was there before and the upload did not take effect: the bucket is as empty as it was (no directory of the key's prefix either)
+                ctx.violation(dict(stage="fault", kind="write not all-or-nothing: a %s write to an empty bucket left %s behind" % (status, leftovers(r)), case=mt, tree=r["tree"][:20]))
+                continue
         else:
             okprop = ntmp == 0 and content is not None and (mt.get("expect_body") is None or content == mt["expect_body"])
         if not okprop:
@@ -165,6 +174,7 @@ def run_polls(ctx):
     per = len(frames) + 4
     allowed = {False: set(o.rsplit("|", 1)[0] for o in outs[:per]), True: set(o.rsplit("|", 1)[0] for o in outs[per:])}
     res = vlib.run_impl("c19", cases)
+    known, seen_known = vlib.known_findings("C19"), set()
     for r, mt in zip(res, meta):
         ctx.cov["evaluations"] += 1
         if "panic" in r:
@@ -173,7 +183,13 @@ def run_polls(ctx):
         content, ntmp, g = observe(r["outs"], r["tmp"])
         impl = expected_show(content, ntmp, "x").rsplit("|", 1)[0]
         ctx.count("drop_polls." + ("completed" if r["experiment"][0].startswith("completed") else "dropped") + (".new" if content == body else ".prev"))
-        if impl not in allowed[mt["present"]]:
+        if content is None and not mt["present"] and leftovers(r) and r["experiment"] == ["dropped:drained"] and "drop-between-mkdir-and-rename" in known:
+            # the listed finding: abandoned inside FileWriter::done, after create_dir_all and before the rename (the body had been read to its end)
+            if "drop-between-mkdir-and-rename" not in seen_known:
+                ctx.known("drop-between-mkdir-and-rename", known["drop-between-mkdir-and-rename"]); seen_known.add("drop-between-mkdir-and-rename")
+        elif content is None and not mt["present"] and leftovers(r):
+            ctx.violation(dict(stage="drop", kind="a dropped request that stored nothing left %s behind in an empty bucket" % leftovers(r), case=mt, experiment=r["experiment"]))
+        elif impl not in allowed[mt["present"]]:
             ctx.violation(dict(stage="drop", kind="a dropped request left a state the model allows for no drop point: " + impl[:80],
                                case=mt, experiment=r["experiment"], tmp=r["tmp"], read=g[:80]))
         else:
@@ -247,6 +263,42 @@ def run_concurrent(ctx):
     ctx.sample(dict(concurrent=dict(writers=meta[0]["writers"], results=res[0].get("experiment"), read=res[0].get("outs", ["", ""])[-2][:60])))
 
 
+def run_long_keys(ctx):
+    """keys near the length limit: a PutObject that is answered with an error has stored nothing and replaced nothing"""
+    known, seen = vlib.known_findings("C19"), False
+    cases, meta = [], []
+    for n in (100, 170, 255, 700):
+        key = ("/".join(["s" * 200] * (n // 201)) + "/" + "t" * 300)[:n] if n > 255 else "k" * n
+        put1 = dict(op="put", bucket=h(BK), key=h(key), body=h(b"first content"), metadata={"v": "1"})
+        put2 = dict(op="put", bucket=h(BK), key=h(key), body=h(b"second content, longer"))
+        get = dict(op="get", bucket=h(BK), key=h(key))
+        cases.append(dict(before=[dict(op="create_bucket", bucket=h(BK))], experiment=dict(kind="none"), after=[put1, get, put2, get]))
+        meta.append(n)
+    for n, r in zip(meta, vlib.run_impl("c19", cases)):
+        ctx.cov["evaluations"] += 1
+        if "panic" in r:
+            ctx.violation(dict(stage="long-key", kind="harness panic", key_length=n, panic=r["panic"])); continue
+        a1, g1, a2, g2 = r["outs"][-4:]
+        content = lambda g: bytes.fromhex(g[3:].split("|")[0]) if g.startswith("ok:") else None
+        before1, after1, after2 = None, content(g1), content(g2)
+        bad = None
+        if not a1.startswith("ok") and after1 != before1:
+            bad = "the first upload was answered %s and the object exists afterwards" % a1
+        elif not a2.startswith("ok") and after2 != after1:
+            bad = "the second upload was answered %s and later reads return its content instead of the previous one" % a2
+        elif (a1.startswith("ok") and after1 != b"first content") or (a2.startswith("ok") and after2 != b"second content, longer"):
+            bad = "a successful upload is not what later reads return"
+        ctx.count("long_key.%d.%s" % (n, "ok" if bad is None else "differs"))
+        if bad is None and not r["tmp"]:
+            ctx.cov["traces_validated_against_impl"] += 1
+            ctx.nontrivial(("long-key", n, a1[:20], a2[:20]))
+        elif bad is not None and "long-key-side-files" in known and n >= 170 and "err:InternalError" in (a1, a2) and not r["tmp"]:
+            if not seen:
+                ctx.known("long-key-side-files", known["long-key-side-files"]); seen = True
+        else:
+            ctx.violation(dict(stage="long-key", kind="write not all-or-nothing: " + (bad or "temporary files remain: %s" % r["tmp"]), key_length=n, answers=[a1, g1[:60], a2, g2[:60]]))
+
+
 def run(ctx):
     ctx.cov["rule"] = ("a case is one write experiment (fault kind x position x previous state, or one concurrent round) observed by reading "
                        "the object and listing the temp files afterwards; distinct = distinct (experiment, outcome) pairs")
@@ -257,5 +309,6 @@ def run(ctx):
         run_faults(ctx)
         run_polls(ctx)
         run_concurrent(ctx)
+        run_long_keys(ctx)
     except (vlib.ModelError, vlib.HarnessError) as e:
         ctx.violation(dict(stage="harness", kind=type(e).__name__, error=str(e)[:3000]), has_input=False)
